@@ -83,6 +83,14 @@ pub proof fn lemma_rel_pop(state: State, stack: Seq<State>, f: Seq<Frame>)
     assert forall|i: int| 0 <= i < g.len() implies #[trigger] stack.drop_last()[i] == state_of(g.take(i)) by { assert(g.take(i) =~= f.take(i)); }
 }
 pub struct ErrShim { pub e: u8 }
+// the expression of `#if` / `#elif` is evaluated (and may be found in error) only where its value decides something: `#if` in active text, `#elif` when the
+// enclosing text is active and no branch of the group has been selected yet; in an unselected region the directive has no effect
+#[verifier::external_body] pub fn evaluate_if(cond: bool, state: State) -> (r: bool)
+    requires state == State::Active, //@ C07:if-expression-evaluated-only-in-active-text
+    ensures r == cond { unimplemented!() }
+#[verifier::external_body] pub fn evaluate_elif(cond: bool, state: State) -> (r: bool)
+    requires state == State::Inactive, //@ C07:elif-expression-evaluated-only-while-no-branch-is-selected
+    ensures r == cond { unimplemented!() }
 """
 
 
@@ -103,11 +111,11 @@ def build(repo):
     s0, ob0, cb0 = f.find_fn_span("process")
     text, masked = f.text, f.masked
 
-    def purify(c):
+    def purify(c, ev="evaluate_if"):
         c.sub(r"context\.get_macro\(expr\)\.is_none\(\)", "!defined", "R8 impure condition -> parameter")
         c.sub(r"context\.get_macro\(expr\)\.is_some\(\)", "defined", "R8 impure condition -> parameter")
-        c.sub(r"!context\.evaluate\(expr, line\)\?", "!cond", "R8 impure condition -> parameter")
-        c.sub(r"context\.evaluate\(expr, line\)\?", "cond", "R8 impure condition -> parameter")
+        # the evaluation can fail (an undefined identifier is an error): it is a stub that returns the parameter and may only be reached in the state that needs the value
+        c.sub(r"context\.evaluate\(expr, line\)\?", "%s(cond, state)" % ev, "R8 impure condition -> stub returning the parameter, with the state it may be reached in as precondition")
         if "context" in c.text:
             raise Undecided("%s: still refers to `context` after purification" % c.desc)
         return c
@@ -119,11 +127,19 @@ def build(repo):
         raise Undecided("process(): expected 3 `stack.push(state);` (ifdef, ifndef, if), found %d" % len(pushes))
     for k, (name, cexpr, flip) in enumerate((("ifdef", "defined", False), ("ifndef", "!defined", True), ("if", "cond", False))):
         a = s0 + pushes[k]
-        j = a + len("stack.push(state);")
-        r = re.match(r"\s*", masked[j:])
-        j2 = j + r.end()
-        e = f.if_chain_end(j2)
-        c = purify(f.cut_span(a, e, "process(): #%s state update (R8)" % name))
+        # from the push to the end of the directive's arm (whatever statements compute the new state)
+        depth, e = 0, a
+        while e < cb0:
+            ch = masked[e]
+            if ch == "{":
+                depth += 1
+            elif ch == "}":
+                if depth == 0:
+                    break
+                depth -= 1
+            e += 1
+        e = f.text.rfind("\n", a, e) + 1
+        c = purify(f.cut_span(a, e, "process(): #%s state update, from the push to the end of the arm (R8)" % name))
         cuts.append(c)
         params = "defined: bool" if name != "if" else "cond: bool"
         fns.append("""
@@ -154,7 +170,7 @@ pub fn step_%(name)s(state: State, stack: &mut Vec<State>, %(params)s, Ghost(f):
             raise Undecided("process(): #%s arm has no `if state …` statement" % name)
         a = ob + m.start()
         e = f.if_chain_end(a)
-        c = purify(f.cut_span(a, e, "process(): #%s state update (R8)" % name))
+        c = purify(f.cut_span(a, e, "process(): #%s state update (R8)" % name), ev="evaluate_elif")
         cuts.append(c)
         fns.append("""
 // R8: #%(name)s
